@@ -720,6 +720,7 @@ func TestC04(t *testing.T) {
 			func(p c04Plan) *viol { return c04Run(t, st, p) })
 	}
 	rapidProp(t, st, "nonce-streams", perShard(pick(32, 320)), 6, c04GenNonce, func(p c04NoncePlan) *viol { return c04RunNonce(t, st, p) })
+	rapidProp(t, st, "replay-nonces", perShard(pick(32, 640)), 7, c04GenReplay, func(p c04ReplayPlan) *viol { return c04RunReplay(t, st, p) })
 	rapidProp(t, st, "rounds", perShard(pick(48, 1200)), 2, c04GenRounds, func(p c04Rounds) *viol {
 		v := c04RunRounds(t, st, p)
 		if v != nil && st.IsKnown(v.Key) {
